@@ -18,6 +18,7 @@ import (
 
 type SolverStats struct {
 	Queries, Sat, Unsat, Unknown, Errors int
+	Restarts                             int // queries repeated after the solver process was lost
 	Time                                 time.Duration
 	MaxQuery                             time.Duration
 }
@@ -196,6 +197,17 @@ func (m ModelVal) String() string {
 // Check decides satisfiability of the conjunction of asserts. If sat and wants is non-empty,
 // the values of those terms under the model are returned.
 func (s *Solver) Check(asserts []*Term, wants []*Term) (res string, vals []ModelVal) {
+	res, vals = s.checkOnce(asserts, wants)
+	if strings.HasPrefix(res, "error: solver died") {
+		// the solver process was lost (killed under memory pressure, broken pipe): it has been restarted, ask once more
+		s.Stats.Errors--
+		s.Stats.Restarts++
+		res, vals = s.checkOnce(asserts, wants)
+	}
+	return res, vals
+}
+
+func (s *Solver) checkOnce(asserts []*Term, wants []*Term) (res string, vals []ModelVal) {
 	t0 := time.Now()
 	defer func() {
 		d := time.Since(t0)
